@@ -5,6 +5,9 @@ package codecprops
 
 import (
 	"fmt"
+	"os"
+	"os/exec"
+	"strings"
 	"testing"
 
 	"github.com/PapaCharlie/go-restli/v2/fnv1a"
@@ -68,4 +71,80 @@ func TestC10HashPurity(t *testing.T) {
 			rt.Fatalf("property violated (details in the replay file)")
 		}
 	})
+}
+
+// ---------------------------------------------------------------------------------------------
+// "... independent of ... process": the hashes of a fixed list of values (long strings and byte strings included) and of
+// corpus values drawn from a fixed seed are the same in fresh processes (different map hash seeds, different maphash
+// seeds, different addresses).
+
+func hashDigestOfFixedCases() string {
+	var b []byte
+	add := func(h uint32) { b = append(b, byte(h), byte(h>>8), byte(h>>16), byte(h>>24)) }
+	for _, n := range []int{0, 1, 15, 63, 64, 65, 200, 5000} {
+		s := ""
+		for len(s) < n {
+			s += "0123456789abcdefé"
+		}
+		s = s[:n]
+		add(uint32(fnv1a.HashString(s).MapKey()))
+		add(uint32(fnv1a.HashBytes([]byte(s)).MapKey()))
+		h := fnv1a.NewHash()
+		h.AddString(s)
+		h.AddInt64(int64(n))
+		add(uint32(h.MapKey()))
+	}
+	g := &aval.Gen{S: S, MaxDepth: 3}
+	for i, t := range records {
+		v := rapid.Custom(func(rt *rapid.T) *aval.V { rapid.Bool().Draw(rt, "x"); return g.Value(rt, t, 0) }).Example(i + 1)
+		add(dyn.Hash(dyn.Build(S, t, v, dyn.BuildOpts{})))
+	}
+	sum := uint64(14695981039346656037)
+	for _, x := range b {
+		sum = (sum ^ uint64(x)) * 1099511628211
+	}
+	return fmt.Sprintf("%016x/%d", sum, len(b)/4)
+}
+
+func TestC10ProcessChild(t *testing.T) {
+	if os.Getenv("VERIF_C10_CHILD") == "" {
+		t.Skip()
+	}
+	fmt.Println("C10DIGEST=" + hashDigestOfFixedCases())
+}
+
+func TestC10Processes(t *testing.T) {
+	rec := stats.For("C10")
+	if hx.Replaying() {
+		t.Skip()
+	}
+	if i, _ := hx.ShardIndex(); i != 0 {
+		t.Skip()
+	}
+	digests := map[string]int{hashDigestOfFixedCases(): 1}
+	for i := 0; i < 3; i++ {
+		cmd := exec.Command(os.Args[0], "-test.run", "^TestC10ProcessChild$", "-test.count", "1")
+		cmd.Env = append(os.Environ(), "VERIF_C10_CHILD=1", "VERIF_STATS_DIR=")
+		out, err := cmd.CombinedOutput()
+		if err != nil {
+			panic(fmt.Sprintf("child process failed: %v\n%s", err, out))
+		}
+		d := ""
+		for _, line := range strings.Split(string(out), "\n") {
+			if strings.HasPrefix(line, "C10DIGEST=") {
+				d = strings.TrimPrefix(line, "C10DIGEST=")
+			}
+		}
+		if d == "" {
+			panic("child printed no digest:\n" + string(out))
+		}
+		digests[d]++
+	}
+	rec.Case("hash_fresh_processes")
+	rec.NonTrivial("hash-processes", "hash-processes", func() any { return "hashes of fixed strings (0-5000 bytes) and seed-fixed corpus values in 4 processes" })
+	if len(digests) != 1 {
+		msg := fmt.Sprintf("the same values hash differently in different processes: digests %v", digests)
+		rec.Violation("hash-processes", msg, map[string]any{"digests": digests})
+		t.Fatal(msg)
+	}
 }
